@@ -93,8 +93,9 @@ def lifetimes_crash_family(rng: random.Random, prop: str, world: dict, ctl: Ctl,
         kinds = kinds[: len(pts)]
     lo = 0
     prev = 0
+    ctor = "config_object" if prop in ("C10", "C12") and world["problem"]["kind"] == "tab" and rng.random() < 0.15 else "kwargs"
     for i, (kind, p) in enumerate(zip(kinds, pts)):
-        lt = {"route": "construct"} if i == 0 else _route(rng, world, allow_new=(prop != "C11" or rng.random() < 0.3))
+        lt = {"route": "construct", "ctor": ctor} if i == 0 else _route(rng, world, allow_new=(prop != "C11" or rng.random() < 0.3))
         if i > 0:
             lt["fallback"] = True
             lt["over"] = _draw_over(rng, prop, eff, allow_f0=(kind == "clean"))
@@ -119,7 +120,7 @@ def lifetimes_crash_family(rng: random.Random, prop: str, world: dict, ctl: Ctl,
                 lt["crash"] = P.draw_crash(rng, eff, max(prev, p - 2 * eff["f"] - 1), p, end, False)
         prev = p
         lts.append(lt)
-    lt = {"route": "construct"} if not lts else _route(rng, world, allow_new=True)
+    lt = {"route": "construct", "ctor": ctor} if not lts else _route(rng, world, allow_new=True)
     if lts:
         lt["fallback"] = True
         lt["over"] = _draw_over(rng, prop, eff, allow_f0=True)
@@ -127,6 +128,11 @@ def lifetimes_crash_family(rng: random.Random, prop: str, world: dict, ctl: Ctl,
             lt["step"] = "explicit"  # resolved against the model at execution time
     lt["writer"] = P.draw_writer(rng)
     lt["ops"] = [{"op": "solve_to", "it": Tmax}, {"op": "wait"}]
+    if prop == "C12" and rng.random() < 0.25:
+        # someone else opens the directory (load_checkpoint on another solver object) while the
+        # final write of this call may still be pending
+        lt["writer"] = {"mode": "lazy"}
+        lt["ops"] = [{"op": "solve_to", "it": Tmax}, {"op": "peek_load"}, {"op": "wait"}]
     per_cleared = world["solver"]["cls"] == "PER" and world["solver"]["kw"].get("clear_value_history_on_convergence", True) and ctl.converged
     if prop == "C12" and rng.random() < 0.5 and not per_cleared:
         # (a converged periodic solver that cleared its history - a documented option - cannot be
